@@ -27,6 +27,38 @@ def worker_cfgs():
     return [(w, n) for w in (1, 2, 3, 4) for n in (1, 3, 6)]
 
 
+def _sized_files(n, order):
+    """n triggerable files of pairwise different sizes; `order` permutes which path gets which size (size ranking vs path order)."""
+    out = {}
+    for i in range(n):
+        pad = "".join(f"pad_{i}_{k} = {k}\n" for k in range(3 * order[i]))
+        out[f"m{i}.py"] = (pad + "x = sum([i for i in range(3)])\n" + ("" if i % 3 else "def broken(:\n" * 0)).encode()
+    out["zz_bad.py"] = b"def broken(:\n    pass\n"
+    return out
+
+
+def outcome_cfgs(tier):
+    """(n, size order): outcome (tree + whole report incl. list orders) must be the same for every worker count."""
+    import itertools as it
+
+    cfgs = [(3, p) for p in it.permutations(range(3))] + [(4, p) for p in it.permutations(range(4))]
+    if tier == "thorough":
+        cfgs += [(5, p) for p in it.permutations(range(5))]
+    return cfgs
+
+
+def outcome_eval(cfg):
+    n, order = cfg
+    files = _sized_files(n, order)
+    outs = {}
+    for w in range(1, n + 2):
+        obs = drive.run_inproc(drive.Job(files=files, argv=["{dir}", "--codemod-include", "pixee:python/use-generator,pixee:python/use-set-literal", "--max-workers", str(w)]))
+        if obs.error:
+            raise core.HarnessError(obs.error)
+        outs.setdefault(outcome_of(obs), []).append(w)
+    return outs
+
+
 def worker_eval(cfg):
     w, n = cfg
     files = {f"m{i}.py": GEN for i in range(n)}
@@ -318,12 +350,13 @@ def explore(tier, seed):
 
     # (a) schedules
     if tier == "quick":
-        plans = [("semgrep-detected", "line", 1), ("import-scheduling", "line", 1), ("detector-less", "coarse", 1), ("sonar", "coarse", 1)]
+        plans = [("semgrep-detected", "line", 1), ("import-scheduling", "line", 1), ("detector-less", "coarse", 1), ("sonar", "coarse", 1),
+                 ("regex-plugin", "line", 1), ("xml-plugin", "line", 1)]
     else:
         # sizes measured on this box (executions): line<=1 ~1.5-4.3k per driver, coarse<=2 ~5-6k per 3-task driver
         plans = [("semgrep-detected", "line", 1), ("import-scheduling", "line", 1), ("detector-less", "coarse", 1), ("sonar", "coarse", 1),
                  ("semgrep-detected", "coarse", 2), ("import-scheduling", "coarse", 2), ("sonar", "coarse", 2), ("detector-less", "coarse", 2),
-                 ("four-tasks", "coarse", 1)]
+                 ("four-tasks", "coarse", 1), ("regex-plugin", "line", 1), ("xml-plugin", "line", 1), ("regex-plugin", "coarse", 2), ("xml-plugin", "coarse", 2)]
     sched_cov = []
     total_exec = 0
     for driver, gran, bound in plans:
@@ -350,6 +383,12 @@ def explore(tier, seed):
     for cfg, (found, mx) in zip(wcfgs, wres):
         for sig, detail in found:
             cands.setdefault(sig, ({"kind": "workers", "cfg": list(cfg), "sig": sig}, detail))
+    ocfgs = outcome_cfgs(tier)
+    ores = drive.pmap("cmverif.checks.c11:outcome_eval", ocfgs)
+    for cfg, outs in zip(ocfgs, ores):
+        if len(outs) != 1:
+            cands.setdefault("workers|outcome-depends-on-max-workers", ({"kind": "workers-outcome", "n": cfg[0], "order": list(cfg[1])},
+                             f"{cfg[0]} files whose sizes rank {list(cfg[1])} in path order: worker counts grouped by outcome {sorted(outs.values())}"))
     # (c) entry-point orders
     selections = ["sast-default", "wildcard-across-origins", "exclude-some"] + (["find-and-fix-default"] if tier == "thorough" else [])
     perms = list(itertools.permutations(range(4)))
@@ -453,6 +492,7 @@ def explore(tier, seed):
         "schedules": sched_cov,
         "schedule_executions": total_exec,
         "worker_bound": {"pairs (w, n)": wcfgs, "max_in_flight_observed": [r[1] for r in wres]},
+        "worker_count_outcomes": {"projects": len(ocfgs), "rule": "n files of pairwise different sizes, every assignment of sizes to paths, plus an unparseable file, two codemods; the tree and the whole report (list orders included) are the same for every --max-workers from 1 to n+1"},
         "entry_point_orders": hash_cov,
         "real_hash_seed_runs": len(cli_cfgs),
         "hash_seeds_over_corpus": {"PYTHONHASHSEED": hash_seeds, "programs": corpus_programs, "project_runs": len(fcfgs), "rule": "every canonical trigger seed of every codemod, one real console-script run per (project, hash seed); per-file outcome (bytes, changesets, failed, unfixed) must be the same for every seed"},
@@ -484,6 +524,9 @@ def replay(rp):
     if k == "schedule-pool":
         s, _, _ = c11a.run_once(rp["driver"], [], rp["gran"])
         return (str(getattr(s, "requested_workers", None)) == str(len(s.tasks))), f"executor max_workers={getattr(s, 'requested_workers', None)} tasks={len(s.tasks)}"
+    if k == "workers-outcome":
+        outs = outcome_eval((rp["n"], tuple(rp["order"])))
+        return (len(outs) == 1), f"worker counts grouped by outcome: {sorted(outs.values())}"
     if k == "workers":
         found, mx = worker_eval(tuple(rp["cfg"]))
         return (rp["sig"] not in {s for s, _ in found}), f"max in flight {mx} with --max-workers {rp['cfg'][0]}"
